@@ -14,7 +14,7 @@ from sa import AnalysisError
 from sa.astutil import unparse
 from sa.cfg import build_cfg, EXC
 from sa.consts import fold, module_env, NotConst, Regex
-from sa.dataflow import Provenance, ControlDependence, ReachingDefs, node_defs
+from sa.dataflow import Provenance, ControlDependence, ReachingDefs, node_defs, target_names
 from sa.loader import walk_shallow, walk_expr_shallow
 from sa.resolve import get_resolver
 from sa import rx
@@ -96,6 +96,50 @@ def _ctor_delegates(p, fi):
     return out
 
 
+def _probe_recogniser(p, fi, test, env):
+    """a hand-written literal recogniser that was expanded into num(): the module still defines it (`__ret_<name><k>` names the
+    helper); when it is a pure one-argument predicate the constant folder can evaluate, it is compared with the reference
+    language on every string of length <= 3 over a small alphabet and on a list of longer spellings.  Returns (ok, text) or None"""
+    import itertools
+    import re as _re
+    from sa.consts import _interpret, FuncRef
+    cands = []
+    for n in ast.walk(test):
+        if isinstance(n, ast.Name):
+            m = _re.match(r"__ret(_\w+?)\d+$", n.id)
+            if m:
+                for nm in (m.group(1), m.group(1)[1:]):
+                    f = fi.module.functions.get(nm)
+                    if f is not None and len(f.params()) == 1 and f not in cands:
+                        cands.append(f)
+    if len(cands) != 1:
+        return None
+    f = cands[0]
+    alphabet = ["1", "9", "+", "-", ".", "e", "E", "_", " ", ",", "a", "\uff11"]
+    probes = [""] + ["".join(t) for k in (1, 2, 3) for t in itertools.product(alphabet, repeat=k)]
+    probes += ["1E5", "2.5E-3", "-1.5E+02", "1e+5", "15_9", "1_0.5", "1e5.5", "0x10", "inf", "nan", "-inf", "1.2.3", "+.5e-3", ".5e3",
+               "12345678901234567890", "1e400", "1 2", "\t1", "1\n", "1d5", "1e5e5", "1.e5", "+1.25E+10", "\u0661\u0662"]
+    ref, core = _re.compile(REF), _re.compile(CORE)
+    wrong = []
+    for s_ in probes:
+        try:
+            got = bool(_interpret(FuncRef(f.node, env), [s_], {}))
+        except NotConst:
+            return None
+        except Exception:  # noqa - outside the folder
+            return None
+        if (got and ref.fullmatch(s_) is None) or (not got and core.fullmatch(s_) is not None):
+            wrong.append((s_, got))
+            if len(wrong) >= 4:
+                break
+    if wrong:
+        return False, ("the hand-written literal recogniser %s disagrees with the documented literal language: %s" % (
+            f.qual, "; ".join("%r is %s" % (s_, "accepted (numpy converts it although it is no decimal literal)" if g else
+                                            "rejected (a numeric literal stays text)") for s_, g in wrong)))
+    return True, ("the hand-written literal recogniser %s lies between the core and the widest documented literal language on %d probe strings (all "
+                  "strings of length <= 3 over %d characters and %d longer spellings)" % (f.qual, len(probes), len(alphabet), 24))
+
+
 def rule_numlit(ctx):
     p = ctx.p
     fi = p.func(SP + ".num")
@@ -174,6 +218,30 @@ def rule_numlit(ctx):
             guards.append((node.id, sub, meth, pat, arg))
     site = fi.qual + "#literal-guard"
     if not guards:
+        # a hand-written recogniser: a test in front of the constructors that reads values computed from the text (parts, digit
+        # tests) and leaves the function - a different design, whose language this rule cannot compare with the reference
+        wide = set(derived)
+        for _ in range(12):
+            for a_ in walk_shallow(fi.node):
+                if isinstance(a_, ast.Assign) and any(isinstance(n, ast.Name) and n.id in wide for n in ast.walk(a_.value)):
+                    for t_ in a_.targets:
+                        wide |= set(target_names(t_))
+        from sa.astutil import ordn as _ordn
+        first_sink = min(_ordn(c_) for _, c_ in sinks)
+        hand = [nd for nd in cfg.nodes if nd.kind == "test" and _ordn(nd.ast) < first_sink and any(
+            isinstance(n, ast.Name) and n.id in wide and n.id not in derived for n in ast.walk(nd.ast)) and any(
+            isinstance(r_, ast.Return) for st_ in getattr(nd.ast._parent, "body", []) if hasattr(nd.ast, "_parent") for r_ in ast.walk(st_))]
+        if hand:
+            verdict = _probe_recogniser(p, fi, hand[0].ast, env)
+            if verdict is not None:
+                okv, msg = verdict
+                ctx.check(okv, "HDR.NUMLIT", fi.qual + "#guard-language", fi, hand[0].ast, msg, msg)
+                ctx.floor("HDR.NUMLIT", 1)
+                return
+            ctx.undecided("HDR.NUMLIT", fi.qual + "#literal-guard", fi, hand[0].ast, "num() recognises literals with hand-written string tests "
+                          "(`%s`), not with a regular expression: the language it accepts is not decided" % unparse(hand[0].ast))
+            ctx.floor("HDR.NUMLIT", 0)
+            return
         for nid, call in sinks:
             ctx.bad("HDR.NUMLIT", "%s#sink:%s" % (fi.qual, _ctor_name(call)), fi, call,
                     "%s is applied to header text without a literal recogniser: numpy accepts digit-group "
@@ -586,6 +654,15 @@ def rule_curve_raw(ctx):
         for i, a in enumerate(ic.args):
             if i != 2 and any(isinstance(c, ast.Call) and isinstance(c.func, ast.Attribute) and c.func.attr == "num" for c in ast.walk(a)):
                 bad.append("argument %d of HeaderItem(...) is converted with num()" % i)
+    computed = [x for ic in item_calls for a in ic.args[2:4] for x in ast.walk(a)
+                if isinstance(x, ast.Subscript) and isinstance(x.slice, ast.Name)] + [
+        x for s in walk_shallow(fm.node) if isinstance(s, ast.Call) and isinstance(s.func, ast.Attribute) and s.func.attr == "num" and s.args
+        for x in ast.walk(s.args[0]) if isinstance(x, ast.Subscript) and isinstance(x.slice, ast.Name)]
+    if bad and computed:
+        ctx.undecided("HDR.CURVE-RAW", fm.qual + "#value-only", fm, fm.node, "metadata() picks the value and the description by computed field "
+                      "names (`%s`): which field num() converts is not decided in this form" % unparse(computed[0]))
+        ctx.floor("HDR.CURVE-RAW", 2)
+        return
     ctx.check(not bad, "HDR.CURVE-RAW", fm.qual + "#value-only", fm, fm.node,
               "in metadata() only the value field (per the value/descr order) is converted",
               "; ".join(bad))
